@@ -20,6 +20,10 @@
  *   layer operations: R<as>:<addr> (a memory-array translation step reading 8 bytes), + (add a layer
  *   that overrides nothing), -<pos> (delete the added layer at position pos, newest = 0); output
  *   "<status>:<value>" per R, then "gets= puts= double= unput=" after the context is destroyed.
+ *   Further ops: B<mask> / V<mask> (first in the line): read capabilities of the base layer and the
+ *   address spaces in which its memory exists (bit 0 KPHYSADDR, bit 1 MACHPHYSADDR); +c<mask>: add a
+ *   layer that overrides read_caps with <mask>.  The context's system has identity maps between the
+ *   two physical address spaces, so a read of a space outside the capabilities is converted.
  *   line "L <n> <ostype|-> <dump file> <kvaddr>...": a dump object with n empty layers stacked on its
  *   translation context before the file is opened; prints attributes, reads and hook answers (see below).
  *   line "K <dump file>": the translation context of a kdump_ctx_t that has the file open; the answers of all seven hooks before
@@ -118,6 +122,7 @@ struct cpage { unsigned char *data; size_t size; int released; };
 static struct cpage cpages[MAXCP];
 static int ncp;
 static unsigned long c_gets, c_puts, c_double;
+static unsigned long c_base_caps = 3, c_served = 3;
 
 static void c_put_page(const addrxlat_buffer_t *buf)
 {
@@ -133,6 +138,8 @@ static addrxlat_status c_get_page(const addrxlat_cb_t *cb, addrxlat_buffer_t *bu
 	uint64_t a = buf->addr.addr, base, size, blk, i;
 	unsigned as = (unsigned)buf->addr.as;
 	struct cpage *p;
+	/* memory is there only in the address spaces of the "served" mask */
+	if (as > 2 || !(c_served & (1UL << as))) return ADDRXLAT_ERR_NODATA;
 	/* the same function as Cb/CbCache.cb_page_source (compared on probe addresses by the check) */
 	blk = a / 0x100;
 	if (blk % 8 == 3) return ADDRXLAT_ERR_NODATA;
@@ -152,10 +159,16 @@ static addrxlat_status c_get_page(const addrxlat_cb_t *cb, addrxlat_buffer_t *bu
 	return ADDRXLAT_OK;
 }
 
+
 static unsigned long c_read_caps(const addrxlat_cb_t *cb)
 {
-	return ADDRXLAT_CAPS(ADDRXLAT_KPHYSADDR) | ADDRXLAT_CAPS(ADDRXLAT_MACHPHYSADDR) |
-		ADDRXLAT_CAPS(ADDRXLAT_KVADDR);
+	return c_base_caps;
+}
+
+/* read_caps of a layer that overrides it: the mask is the layer's private data */
+static unsigned long c_layer_caps(const addrxlat_cb_t *cb)
+{
+	return (unsigned long)(uintptr_t)cb->priv;
 }
 
 static void cache_history(char *line)
@@ -164,17 +177,46 @@ static void cache_history(char *line)
 	addrxlat_cb_t *base, *added[MAXL];
 	int nadded = 0, i;
 	char *save = NULL, *tok;
+	addrxlat_sys_t *sys = addrxlat_sys_new();
 	ncp = 0; c_gets = c_puts = c_double = 0;
+	c_base_caps = 3; c_served = 3;
 	base = addrxlat_ctx_add_cb(ctx);
 	base->get_page = c_get_page;
 	base->read_caps = c_read_caps;
+	{
+		/* identity maps between the two physical address spaces, so that a read of a space that
+		 * is not among the read capabilities is converted to the other one */
+		int idx[2] = { ADDRXLAT_SYS_MAP_KPHYS_MACHPHYS, ADDRXLAT_SYS_MAP_MACHPHYS_KPHYS };
+		int mi[2] = { ADDRXLAT_SYS_METH_KPHYS_MACHPHYS, ADDRXLAT_SYS_METH_MACHPHYS_KPHYS };
+		for (i = 0; i < 2; ++i) {
+			addrxlat_meth_t m; addrxlat_range_t r; addrxlat_map_t *map;
+			memset(&m, 0, sizeof m);
+			m.kind = ADDRXLAT_LINEAR; m.param.linear.off = 0;
+			m.target_as = i ? ADDRXLAT_KPHYSADDR : ADDRXLAT_MACHPHYSADDR;
+			addrxlat_sys_set_meth(sys, mi[i], &m);
+			map = addrxlat_map_new();
+			r.endoff = ADDRXLAT_ADDR_MAX; r.meth = mi[i];
+			if (map && addrxlat_map_set(map, 0, &r) == ADDRXLAT_OK)
+				addrxlat_sys_set_map(sys, idx[i], map);
+			if (map) addrxlat_map_decref(map);
+		}
+	}
 	strtok_r(line, " ", &save);
 	for (tok = strtok_r(NULL, " ", &save); tok; tok = strtok_r(NULL, " ", &save)) {
-		if (tok[0] == '+') {
+		if (tok[0] == 'B') {
+			c_base_caps = strtoul(tok + 1, NULL, 16);
+		} else if (tok[0] == 'V') {
+			c_served = strtoul(tok + 1, NULL, 16);
+		} else if (tok[0] == '+') {
 			if (nadded < MAXL) {
 				/* newest first, like the model's stack */
 				memmove(added + 1, added, nadded * sizeof added[0]);
 				added[0] = addrxlat_ctx_add_cb(ctx);
+				if (tok[1] == 'c') {
+					/* a layer that overrides read_caps (and nothing else) */
+					added[0]->priv = (void *)(uintptr_t)strtoul(tok + 2, NULL, 16);
+					added[0]->read_caps = c_layer_caps;
+				}
 				++nadded;
 			}
 		} else if (tok[0] == '-') {
@@ -201,13 +243,14 @@ static void cache_history(char *line)
 			meth.param.memarr.elemsz = 1;
 			meth.param.memarr.valsz = 8;
 			memset(&step, 0, sizeof step);
-			step.ctx = ctx; step.sys = NULL; step.meth = &meth;
+			step.ctx = ctx; step.sys = sys; step.meth = &meth;
 			step.base.addr = addr;
 			st = addrxlat_walk(&step);
 			printf("%d:%" PRIx64 " ", (int)st, st == ADDRXLAT_OK ? (uint64_t)step.base.addr : (uint64_t)0);
 			addrxlat_ctx_clear_err(ctx);
 		}
 	}
+	addrxlat_sys_decref(sys);
 	addrxlat_ctx_decref(ctx);	/* cleanup_cache: puts what the slots still hold */
 	{
 		unsigned long unput = 0;
@@ -225,6 +268,7 @@ int main(int argc, char **argv)
 	while ((line = verif_getline(f))) {
 		char *save = NULL, *tok;
 		addrxlat_ctx_t *ctx;
+		alarm(5);	/* a case takes milliseconds; a spinning library is killed by SIGALRM */
 		int nl = 0, first = 1, i;
 		if (line[0] == 'C') { cache_history(line); continue; }
 		if (line[0] == 'Y') {
@@ -233,6 +277,7 @@ int main(int argc, char **argv)
 			addrxlat_buffer_t b;
 			memset(&b, 0, sizeof b);
 			ncp = 0;
+			c_served = 7;		/* the page source itself, in every address space */
 			if (sscanf(line + 2, "%x:%llx", &as, &addr) != 2) { printf("?\n"); continue; }
 			b.addr.as = (addrxlat_addrspace_t)as; b.addr.addr = addr;
 			if (c_get_page(NULL, &b) != ADDRXLAT_OK) { printf("none\n"); continue; }
